@@ -46,6 +46,10 @@ CHECKS['C17'] = dict(level='model_checking', engine='statesearch+sched',
    technique='exhaustive trie-vs-grammar enumeration; explicit-state BFS (replay + 1 event, canonical-state dedup, distributed over processes) over the real pubsub service in node and client role inside synctest bubbles with publish probes and teardown orders from every state; controlled-scheduler exploration of 17 two-operation races',
    text='(a) all patterns/topics with <= 4 segments over a 6-segment alphabet and all Add/Remove sequences on the real trie vs a reference grammar and multiset; (b) BFS to depth 4 (quick) / 6 (thorough) over subscribe / unsubscribe / publish / close / evict / revalidate / close-space / clock events on the real service with a private real stream pool and fake streams; from every state ~30 publish variants are judged against a reference delivery model and 9-11 teardown orders must leave every interest map, trie and pool tag empty; (c) stream close vs subscribe / unsubscribe / CloseSpace / evict / publish fan-out schedules under the controlled scheduler, judged by linearizability of delivery and absence of leaked interest.',
    note='rate limiter and dedup-ring eviction configured out of reach; status frames not judged; multi-stream operations racing a publish are judged per subscriber stream', ref='5 C17')
+CHECKS['C06'] = dict(level='model_checking', engine='statesearch',
+   technique='exhaustive enumeration of honest DAGs (programs over two creator replicas x all id orders) and, per DAG, of all arrival permutations x batch partitions x head announcements x reopen points on the real object tree; differential oracle between feedings and against the full order',
+   text='Every DAG with <= 4 changes that two honest replicas can produce by create(plain|snapshot)/pull programs, under every relative order of the change ids, is fed to fresh real object trees in every arrival order and batch partition (with the sender heads or the batch maxima announced, reopening from storage at every point): presented and stored sequences must be linear extensions, equal across all feedings that hold the same set, restrictions of the full order, stable in their order ids, prefix-extending whenever Append is reported, and identical on a real any-store tree storage.',
+   note='test change builder / no-op validator (ordering logic only); feedings over an in-memory storage implementation, creation-order feed of every DAG (quick: every 4th) repeated on real any-store; each feeding ends with one call carrying the complete set', ref='5 C06')
 NOT_YET = 'check not built yet (work in progress, see DESIGN.md section 10)'
 m = {
  'version': 1,
